@@ -380,8 +380,8 @@ silent('c04-any-eq', 'C04',
 fire('c05-split-2', 'C05',
      [(P, "kind, match = rule.split(':', 1)", "kind, match = rule.split(':', 2)")], 'C05.FALLBACK')
 fire('c05-eq-to-in', 'C05',
-     [(C, "            return match == str(test_value)\n\n        except ValueError:",
-       "            return match in str(test_value)\n\n        except ValueError:")], 'C05.LITERAL-FIRST')
+     [(C, "            return match == str(test_value)\n\n        except (ValueError,",
+       "            return match in str(test_value)\n\n        except (ValueError,")], 'C05.LITERAL-FIRST')
 fire('c05-base-in', 'C05',
      [(C, "        if len(path_segments) == 0:\n            return match == str(test_value)",
        "        if len(path_segments) == 0:\n            return match in str(test_value)")], 'C05.WALK')
@@ -400,8 +400,8 @@ fire('c05-quoted-first-only', 'C05',
      [(P, "if len(tok) >= 2 and ((tok[0], tok[-1]) in",
        "if len(tok) >= 2 and ((tok[0], tok[0]) in")], 'C05.QUOTED')
 fire('c05-missing-attr-true', 'C05',
-     [(C, "            test_value = test_value[key]\n        except KeyError:\n            return False",
-       "            test_value = test_value[key]\n        except KeyError:\n            return True")], 'C05.DENY')
+     [(C, "            test_value = test_value[key]\n        except (KeyError, TypeError):\n            return False",
+       "            test_value = test_value[key]\n        except (KeyError, TypeError):\n            return True")], 'C05.DENY')
 fire('c05-missing-target-true', 'C05',
      [(C, "            # While doing GenericCheck if key not\n            # present in Target return false\n            return False",
        "            # While doing GenericCheck if key not\n            # present in Target return false\n            return True")], 'C05.DENY')
@@ -1078,8 +1078,8 @@ fire('c17-alias-line-uncommented', 'C17',
 fire('c17-op-line-uncommented', 'C17',
      [(GEN, "                    op += ('# %(method)s  %(path)s\\n' %", "                    op += ('%(method)s  %(path)s\\n' %")], 'C17.LINES')
 fire('c17-rule-line-name-twice', 'C17',
-     [(GEN, "    text = ('\"%(name)s\": \"%(check_str)s\"\\n' %\n            {'name': default.name,\n             'check_str': default.check_str})\n\n    if include_help:",
-       "    text = ('\"%(name)s\": \"%(check_str)s\"\\n' %\n            {'name': default.name,\n             'check_str': default.name})\n\n    if include_help:")], 'C17.RULE-LINE')
+     [(GEN, "             'check_str': _quote_check_str(default.check_str)})\n\n    if include_help:",
+       "             'check_str': _quote_check_str(default.name)})\n\n    if include_help:")], 'C17.RULE-LINE')
 fire('c17-sections-uncomment', 'C17',
      [(GEN, "                    include_help=include_help,\n                    add_deprecated_rules=not exclude_deprecated)", "                    include_help=include_help, comment_rule=False,\n                    add_deprecated_rules=not exclude_deprecated)")], 'C17.CONSTS')
 fire('c17-sanitizer-returns-empty', 'C17',
@@ -1097,3 +1097,34 @@ silent('c17-rstrip-variants', 'C17',
        [(GEN, "            paragraph.append(line.rstrip())", "            paragraph.append(line)")])
 silent('c17-wrap-width', 'C17',
        [(GEN, "        return textwrap.wrap(' '.join(lines), 70, initial_indent='# ',", "        return textwrap.wrap(' '.join(lines), 72, initial_indent='# ',")])
+
+# ------------------------------------------------------------------ C18
+fire('c18-revert-f6-yaml', 'C18',
+     [(GEN, "    text = ('\"%(name)s\": %(check_str)s\\n' %\n            {'name': default.name,\n             'check_str': _quote_check_str(default.check_str)})",
+       "    text = ('\"%(name)s\": \"%(check_str)s\"\\n' %\n            {'name': default.name,\n             'check_str': default.check_str})")], 'C18.QUOTED-HOLE')
+fire('c18-revert-f6-extra', 'C18',
+     [(GEN, "        rule_text = ('\"%(name)s\": %(check_str)s\\n' %\n                     {'name': file_rule,\n                      'check_str': _quote_check_str(check_str)})",
+       "        rule_text = ('\"%(name)s\": \"%(check_str)s\"\\n' %\n                     {'name': file_rule,\n                      'check_str': check_str})")], 'C18.QUOTED-HOLE')
+fire('c18-revert-f7', 'C18',
+     [(GEN, "                policies.pop(rule_default.deprecated_rule.name, None)\n                policies[rule_default.name] = old_policies[\n                    rule_default.deprecated_rule.name]",
+       "                policies[rule_default.name] = policies.pop(\n                    rule_default.deprecated_rule.name)")], 'C18.POP-GUARD')
+fire('c18-convert-override-commented', 'C18',
+     [(GEN, "                rule_text = _format_rule_default_yaml(\n                    file_rule, comment_rule=False,\n                    add_deprecated_rules=False)",
+       "                rule_text = _format_rule_default_yaml(\n                    file_rule, comment_rule=True,\n                    add_deprecated_rules=False)")], 'C18.KEEP-OVERRIDE')
+fire('c18-convert-eq-inverted', 'C18',
+     [(GEN, "            if file_rule == default_rule:\n                rule_text = _format_rule_default_yaml(", "            if file_rule != default_rule:\n                rule_text = _format_rule_default_yaml(")], 'C18.KEEP-OVERRIDE')
+fire('c18-redundant-all', 'C18',
+     [(GEN, "            if file_rule == reg_rule:\n                print(reg_rule)", "            if file_rule:\n                print(reg_rule)")], 'C18.REDUNDANT')
+fire('c18-generator-shadow', 'C18',
+     [(GEN, "                        for name, default in enforcer.registered_rules.items()\n                        if name not in enforcer.file_rules]",
+       "                        for name, default in enforcer.registered_rules.items()]")], 'C18.MERGE')
+fire('c18-generator-commented', 'C18',
+     [(GEN, "            policies, include_help=False,\n            exclude_deprecated=exclude_deprecated):", "            policies, include_help=True,\n            exclude_deprecated=exclude_deprecated):")], 'C18.MERGE')
+fire('c18-convert-pop-unguarded', 'C18',
+     [(GEN, "            if default_rule.name not in file_policies:\n                continue\n", "")], 'C18.POP-GUARD')
+fire('c18-upgrade-keeps-old', 'C18',
+     [(GEN, "                policies.pop(rule_default.deprecated_rule.name, None)\n", "")], 'C18.UPGRADE')
+fire('c18-extra-rules-commented', 'C18',
+     [(GEN, "        rule_text = ('\"%(name)s\": %(check_str)s\\n' %\n                     {'name': file_rule,", "        rule_text = ('#\"%(name)s\": %(check_str)s\\n' %\n                     {'name': file_rule,")], 'C18.KEEP-OVERRIDE')
+silent('c18-convert-no-exit-log', 'C18',
+       [(GEN, "    if file_policies:\n        yaml_format_rules.append(extra_rules_text)\n", "    yaml_format_rules.append(extra_rules_text)\n")])
